@@ -148,8 +148,12 @@ func ruleR11(c *Ctx, prop string) {
 		c.checkConvLoops(f, subImage, full)
 	}
 	c.checkSubImage(subImage)
-	if full {
+	if full || prop == "C16" {
+		// C16: an index of the wrong kind reads the batch size or the channel count where a spatial extent is meant
+		// (or the other way round): the result of one sample then depends on how many samples share the batch
 		c.checkConvIndexKinds(oi)
+	}
+	if full {
 		c.checkAutoPad(oi)
 	}
 }
